@@ -1,21 +1,27 @@
-"""C50 - content views always render safely; the DNS view re-encodes faithfully.
+"""C50 - content views always render safely; the DNS view re-encodes faithfully (decided by interpretation).
 
-Decided from the source of contentviews/__init__.py, _registry.py, _view_raw.py, _view_dns.py, utils/strutils.py and dns.py:
-  R50.1 safe rendering (all paths of prettify_message, exception edges out of every ``.prettify(`` call included): the object that is
-        returned is either the constant "Content is missing." result or was passed through
-        ``X.text = escape_control_characters(X.text)`` after its last construction / text assignment; the selected view's prettify
-        runs only inside ``try ... except Exception``; the only unprotected prettify is RawContentview's, a total decode
-        (errors="backslashreplace"/"replace"/"ignore"); registry.get_view guards every render_priority call with a non-raising
-        ``except Exception`` and the explicit-name lookup with ``except KeyError``; the translation table used by
-        escape_control_characters - interpreted from its AST (pyint, shared with C49 R49.2) on every C0 / DEL / C1 code point alone and
-        embedded and on every combination of character classes, so that fast paths / pre-checks around the table are analysed, and, when it
-        is still `return text.translate(<table>)`, with its table evaluated from the module-level statements - maps every C0, DEL and C1 control character except
-        tab / LF / CR to a printable character.
-  R50.2 DNS view field coverage: every dataclass field of DNSMessage, Question and ResourceRecord (timestamp excepted) is written by
-        to_json from ``self.<field>`` and read back by from_json from the same key with the matching to_str/from_str codec; the keys the
-        DNS view deletes before display are not keys from_json needs.  *Reports the known defect F-C50: ``reserved`` is not written and
-        from_json hard-codes reserved=0.*
-NOT decided: that each individual view terminates / returns str; YAML round-trip; the rdata codecs of ResourceRecord.
+How: ``prettify_message``, ``ContentviewRegistry.get_view``, ``RawContentview``, ``strutils.escape_control_characters`` and the DNS view with
+``DNSMessage / Question / ResourceRecord .to_json / .from_json`` are *interpreted from their AST* (``XInterp`` = pyint; nothing of the
+repository is imported or run) in concrete worlds and the observable results compared with what the property says - so renamed locals, inverted
+branches, ``match``, extracted helpers, temporaries, added logging / assertions / annotations are interpreted like the original.
+
+  R50.1 safe rendering.  World: a registry (the repository's class) holding the repository's raw view, a view whose ``prettify`` returns text
+        with every C0 / DEL / C1 control character, views whose ``prettify`` raises (21 built-in exception classes from ValueError to MemoryError and
+        a plain Exception - with hostile message text and traceback text), views whose
+        ``render_priority`` raises / returns a non-number; messages without content, with text, with control characters, with undecodable
+        bytes, an HTTP message with a hostile content-encoding; the view chosen automatically, explicitly, by an unknown name.
+        Decided for every world: ``prettify_message`` returns (no exception escapes) an object whose ``text`` is a str without control characters
+        other than TAB / LF / CR; ``get_view`` returns a registered view whenever one view has a working ``render_priority``.
+        In addition the sanitiser itself: ``escape_control_characters`` interpreted (shared with C49 R49.2) on every C0 / DEL / C1 code point
+        alone and embedded and on every combination of character classes; and - when it still is ``return text.translate(<table>)`` - the
+        table evaluated structurally from the module-level statements.
+  R50.2 DNS view round trip.  For messages covering both values of every flag, known and unknown op / response codes, types and classes,
+        TTL 0, several distinct records per section and A / AAAA / CNAME / TXT / opaque record data: ``X.from_json(X.to_json())`` gives back
+        every dataclass field of DNSMessage, Question and ResourceRecord (``timestamp`` excepted), and so does the DNS view's
+        ``reencode(prettify(data))`` with ``DNSMessage.unpack`` yielding the message and the YAML codec being the identity (trusted).
+        *Reports the known defect F-C50: ``reserved`` is not written and from_json hard-codes reserved=0.*
+NOT decided: that each individual view terminates / returns str (they are covered through the ``except Exception`` wrapper only); the YAML
+round trip; control characters inside DNS names (the escaped rendering is not what reencode receives unedited); malformed record data.
 """
 
 from __future__ import annotations
@@ -26,194 +32,328 @@ from ..core import AnalysisError
 from ..core import norm
 from ..model import attr_chain
 from ..model import call_name
-from ..model import eval_order
 from ..model import last_attr
-from ..model import stmts_of
-from ..model import walk_in_order
-from ..paths import Engine
-from ..paths import GenericSpec
-from ..paths import State
-from ..paths import traces_of
+from ..pyint import ClassRef
+from ..pyint import DictRec
+from ..pyint import Raised
+from ..pyint import Rec
 from ..selftest import Mutant
-from ._helpers_F import class_members
-from ._helpers_F import kwarg
 from ._helpers_F import own_nodes
 from ._helpers_F import params_of
+from ._helpers_xi import abstract_ok
+from ._helpers_xi import ExcStr
+from ._helpers_xi import RaiseOnRead
+from ._helpers_xi import Stub
+from ._helpers_xi import trusted_stdlib
+from ._helpers_xi import XInterp
 
 PROP = "C50"
 REG = {
     "strength": "partial",
-    "technique": "path enumeration with exception edges (post-dominance of the escape), handler-coverage checks, static evaluation of the "
-    "control-character translation table, field-coverage agreement between dataclass fields, to_json and from_json",
-    "claim": "prettify_message returns only text that went through escape_control_characters (whose table covers C0, DEL and C1 except tab/LF/CR) "
-    "or a constant; view code runs under `except Exception` with a total raw fallback; get_view cannot raise because of a view; the DNS "
-    "JSON shape carries every DNSMessage / Question / ResourceRecord field except `reserved` (known finding F-C50).",
-    "note": "Individual views are covered only through the `except Exception` wrapper. Trusted: str.translate, bytes.decode error handlers, ruamel.yaml.",
+    "technique": "interpretation of prettify_message / get_view / the raw view / escape_control_characters and of the DNS view with to_json / from_json "
+    "(AST interpreter, helpers followed) in concrete worlds: hostile view output, raising views, undecodable bytes, DNS messages covering every field",
+    "claim": "in every world prettify_message returns text free of control characters except TAB/LF/CR and no view exception escapes it or get_view; "
+    "escape_control_characters covers C0, DEL and C1; the DNS view's prettify -> reencode gives back every DNSMessage / Question / ResourceRecord "
+    "field except `reserved` (known finding F-C50).",
+    "note": "Bounded: finite families of worlds. Individual views are covered only through the `except Exception` wrapper. Trusted: str.translate, "
+    "bytes.decode error handlers, the YAML codec (modelled as the identity), sys.exc_info / traceback (modelled as hostile text).",
 }
 
 CV = "mitmproxy/contentviews/__init__.py"
 REGF = "mitmproxy/contentviews/_registry.py"
 RAW = "mitmproxy/contentviews/_view_raw.py"
 DNSV = "mitmproxy/contentviews/_view_dns.py"
+API = "mitmproxy/contentviews/_api.py"
 STR = "mitmproxy/utils/strutils.py"
 DNS = "mitmproxy/dns.py"
-RESULT = "ContentviewResult"
+LAYER = "mitmproxy/proxy/layers/dns.py"
+CTXF = "mitmproxy/ctx.py"
+
+CONTROL = frozenset(range(0, 32)) | {127} | frozenset(range(128, 160))
+ALLOWED = frozenset({9, 10, 13})
+HOSTILE = "".join(chr(c) for c in sorted(CONTROL))
+HOSTILE_TEXT = "head \x1b[2J\x00 " + HOSTILE + " tail\ttab\nline\r\n\x9b31m"
+EXCEPTIONS = ("ValueError", "KeyError", "Exception", "IndexError", "TypeError", "AssertionError", "UnicodeDecodeError", "RuntimeError", "NotImplementedError", "OSError", "ZeroDivisionError",
+              "AttributeError", "LookupError", "ArithmeticError", "RecursionError", "StopIteration", "UnicodeEncodeError", "EOFError", "OverflowError", "ImportError", "MemoryError")
+PRIMARY = 3  # the first exceptions are crossed with every body and traceback shape, the others with one
+
+
+def leaked(text: str) -> list:
+    return sorted({ord(c) for c in text if ord(c) in CONTROL and ord(c) not in ALLOWED})
+
+
+def classes_of(cps) -> str:
+    return "/".join(g for g, hit in (("C0", any(c < 32 for c in cps)), ("DEL", 127 in cps), ("C1", any(128 <= c < 160 for c in cps))) if hit)
 
 
 # ---------------------------------------------------------------------------------------------------
-# R50.1
+# the world of R50.1
 
 
-def catches_everything(h: ast.ExceptHandler) -> bool:
-    if h.type is None:
-        return True
-    names = [last_attr(e) for e in (h.type.elts if isinstance(h.type, ast.Tuple) else [h.type])]
-    return "Exception" in names or "BaseException" in names
+class TbObj(Stub):
+    """a traceback object: a chain of frames named after the functions they run"""
+
+    _what = "traceback object"
+
+    def __init__(self, names):
+        object.__setattr__(self, "_names", list(names))
+
+    @property
+    def tb_next(self):
+        return TbObj(self._names[1:]) if len(self._names) > 1 else None
+
+    @property
+    def tb_lineno(self):
+        return 1
+
+    def __eq__(self, other):
+        return isinstance(other, TbObj) and other._names == self._names
+
+    def __ne__(self, other):
+        return not self.__eq__(other)
+
+    __hash__ = None
 
 
-def protecting_try(node, fn):
-    """innermost Try of ``fn`` whose *body* contains ``node`` and that has a catch-all handler; None otherwise"""
-    cur = node
-    while cur is not fn:
-        par = cur._parent
-        if isinstance(par, ast.Try) and cur in par.body and any(catches_everything(h) for h in par.handlers):
-            return par
-        cur = par
-    return None
+class SysStub(Stub):
+    _what = "sys"
+
+    def __init__(self, world):
+        object.__setattr__(self, "_w", world)
+
+    def exc_info(self):
+        r = self._w.it.handled()
+        if r is None:
+            return (None, None, None)
+        return (f"<class {r.name}>", ExcStr(r.name, r.msg or self._w.it.exc_text(r.name)), TbObj(self._w.frames))
+
+    def exception(self):
+        r = self._w.it.handled()
+        return None if r is None else ExcStr(r.name, r.msg or self._w.it.exc_text(r.name))
 
 
-class PrettifySpec(GenericSpec):
-    def __init__(self):
-        super().__init__(record_conds=False)
+class TracebackStub(Stub):
+    """traceback: every formatting function yields hostile text (file names, source lines and exception messages are data)"""
 
-    @staticmethod
-    def kind(call):
-        t = kwarg(call, "text")
-        if t is None and call.args:
-            t = call.args[0]
-        if isinstance(t, ast.Constant) and isinstance(t.value, str) and all(ch.isprintable() or ch in "\t\n\r" for ch in t.value):
-            return "const"
-        return "dynamic"
+    _what = "traceback"
 
-    def events(self, node, st):
-        out = []
-        if isinstance(node, (ast.Assign, ast.AnnAssign)) and getattr(node, "value", None) is not None:
-            tgts = node.targets if isinstance(node, ast.Assign) else [node.target]
-            v = node.value
-            for t in tgts:
-                if isinstance(t, ast.Name) and isinstance(v, ast.Call) and last_attr(v.func) == RESULT:
-                    out.append(("construct", t.id, self.kind(v)))
-                elif isinstance(t, ast.Name) and any(isinstance(c, ast.Call) and last_attr(c.func) == RESULT for c in ast.walk(v)):
-                    raise AnalysisError(f"prettify_message: {RESULT} built inside a larger expression ({norm(node)}), not modelled")
-                elif isinstance(t, ast.Attribute) and t.attr == "text" and isinstance(t.value, ast.Name):
-                    esc = isinstance(v, ast.Call) and last_attr(v.func) == "escape_control_characters" and v.args and norm(v.args[0]) == norm(t)
-                    if esc:
-                        ks = kwarg(v, "keep_spacing") or (v.args[1] if len(v.args) > 1 else None)
-                        if ks is not None and not (isinstance(ks, ast.Constant) and ks.value is True):
-                            raise AnalysisError(f"prettify_message: {norm(v)}: keep_spacing is not the default (not modelled)")
-                    out.append(("escape" if esc else "settext", t.value.id))
-                elif isinstance(t, ast.Name):
-                    out.append(("rebind", t.id))
-        elif isinstance(node, ast.Return):
-            v = node.value
-            if isinstance(v, ast.Call) and last_attr(v.func) == RESULT:
-                out.append(("construct", "<direct>", self.kind(v)))
-                out.append(("return", "<direct>"))
-            elif isinstance(v, ast.Name):
-                out.append(("return", v.id))
-            else:
-                raise AnalysisError(f"prettify_message: return value not modelled: {norm(node)}")
-        return out
+    def __init__(self, world):
+        object.__setattr__(self, "_w", world)
 
-    def raises_into(self, stmt, handler_names, st):
-        if any(isinstance(c, ast.Call) and isinstance(c.func, ast.Attribute) and c.func.attr == "prettify" for c in ast.walk(stmt)):
-            return ["Exception"]
-        return []
+    def _lines(self, tb=True):
+        r = self._w.it.handled()
+        name = r.name if r is not None else "Exception"
+        out = ["Traceback (most recent call last):\n", '  File "/tmp/\x1b]0;evil\x07.py", line 1, in prettify\n    x = "\x9b2J"\n'] if tb else []
+        return out + [f"{name}: could not parse \x1b[31m\x00\x7f\x85 {HOSTILE}\n"]
+
+    def format_exception(self, *a, **k):
+        return self._lines()
+
+    def format_exception_only(self, *a, **k):
+        return self._lines(tb=False)
+
+    def format_exc(self, *a, **k):
+        return "".join(self._lines())
+
+    def format_tb(self, *a, **k):
+        return self._lines()[:-1]
+
+    def extract_tb(self, tb, limit=None):
+        return [("/tmp/f.py", 1, n, "line") for n in (tb._names if isinstance(tb, TbObj) else [])]
+
+    def print_exc(self, *a, **k):
+        return None
+
+    print_exception = print_exc
+
+
+class World:
+    """one interpreter per world family: registry of the repository's class, stub views, the repository's raw view"""
+
+    def __init__(self, model):
+        self.model = model
+        t = trusted_stdlib()
+        t["sys"] = SysStub(self)
+        t["traceback"] = TracebackStub(self)
+        t["warnings"] = _Warnings()
+        self.it = XInterp(model, trusted_modules=t)
+        self.it.exc_text = lambda name: f"bad input \x1b[0m\x00\x9d {HOSTILE}"
+        self.it.exc_traceback = lambda: TbObj(self.frames)
+        self.it.overrides[(CTXF, "options")] = Rec("Options", _name="ctx.options", protobuf_definitions=None)
+        self.frames = ["prettify_message", "prettify"]
+        self.raw = None
+
+    def raw_view(self):
+        """the repository's fallback view: the object bound to the name ``raw`` that contentviews/__init__.py imports"""
+        if self.raw is None:
+            mod = self.model.module(CV)
+            names = [n for n, tgt in mod.imports.items() if tgt.endswith("_view_raw.raw")]
+            if not names:
+                raise AnalysisError(f"{CV}: the raw fallback view is no longer imported from _view_raw")
+            self.raw = self.it.module_global(CV, names[0])
+            if not (isinstance(self.raw, Rec) and self.raw._impl is not None):
+                raise AnalysisError(f"{RAW}: `raw` does not evaluate to an instance of a repository class: {self.raw!r}")
+        return self.raw
+
+    def view(self, name, text=None, exc=None, prio=1.0, prio_exc=None):
+        def prettify(data, metadata):
+            if exc:
+                raise Raised(exc, f"cannot prettify \x1b[1m\x00\x8f {HOSTILE}")
+            return text
+
+        def render_priority(data, metadata):
+            if prio_exc:
+                raise Raised(prio_exc, "priority failed")
+            return prio
+
+        return Rec("Contentview", _name=f"view {name}", name=name, syntax_highlight="none", prettify=abstract_ok(prettify), render_priority=abstract_ok(render_priority))
+
+    def registry(self, views):
+        cls = self.registry_class()
+        return Rec(cls[1], _impl=cls, _name="registry", _by_name={v.name.lower() if not isinstance(v, Rec) or "name" in v.__dict__ else "raw": v for v in views})
+
+    def registry_class(self):
+        """the class of the module-level ``registry`` of contentviews/__init__.py"""
+        mod = self.model.module(CV)
+        vals = mod.assigns("registry")
+        if vals and isinstance(vals[-1], ast.Call):
+            r = self.model.resolve_name(mod, vals[-1].func)
+            if r is not None and isinstance(r[1], ast.ClassDef):
+                return (r[0].rel, getattr(r[1], "_qual", r[1].name))
+        raise AnalysisError(f"{CV}: `registry = <RegistryClass>()` not found")
+
+
+class _Warnings(Stub):
+    _what = "warnings"
+
+    def warn(self, *a, **k):
+        return None
+
+
+def tcp_message(content):
+    return Rec("TCPMessage", _name="message", content=content, from_client=True, timestamp=0.0)
+
+
+def http_message(content, raw_content, encoding):
+    return Rec("Response", _bases=("Message",), _name="message", content=content, raw_content=raw_content, headers=DictRec("Headers", {"content-encoding": encoding, "content-type": "text/plain"}, case_insensitive=True),
+               status_code=200, http_version="HTTP/1.1", trailers=None, timestamp_start=0.0)
+
+
+def undecodable_http_message(raw_content):
+    return Rec("Response", _bases=("Message",), _name="message", content=RaiseOnRead("ValueError", "cannot decode"), raw_content=raw_content,
+               headers=DictRec("Headers", {"content-encoding": "gz\x1bip"}, case_insensitive=True), status_code=200, http_version="HTTP/1.1", trailers=None, timestamp_start=0.0)
+
+
+DATA = [b"plain text", b"ctl \x1b[2J\x00\x07\x7f \xc2\x9b end", b"\xff\xfe\x80 undecodable \x1b\x00", b""]
+FLOW = Rec("TCPFlow", _bases=("Flow",), _name="flow", id="f", type="tcp", metadata={}, server_conn=Rec("Server", address=("example.com", 53), peername=None), client_conn=Rec("Client", peername=None))
 
 
 def check_prettify_message(ctx):
     fn = ctx.func(CV, "prettify_message")
     W = (CV, "prettify_message", fn)
-    # the selected view's prettify is protected, everything else must be the total raw view
-    views = [n.targets[0].id for n in own_nodes(fn) if isinstance(n, ast.Assign) and isinstance(n.value, ast.Call) and last_attr(n.value.func) == "get_view" and isinstance(n.targets[0], ast.Name)]
-    ctx.require(len(views) == 1, "prettify_message: `view = registry.get_view(...)` not found")
-    calls = [c for c in own_nodes(fn) if isinstance(c, ast.Call) and isinstance(c.func, ast.Attribute) and c.func.attr == "prettify"]
-    ctx.require(any(attr_chain(c.func.value) == views[0] for c in calls), "prettify_message never calls view.prettify")
-    for c in calls:
-        recv = attr_chain(c.func.value)
-        if recv == views[0]:
-            ctx.check(protecting_try(c, fn) is not None, "R50.1", W, f"{norm(c.func)}(...) outside try/except Exception", "an exception raised by a content view escapes prettify_message",
-                      desc=f"{views[0]}.prettify(...) runs inside try ... except Exception")
-        else:
-            imp = ctx.model.module(CV).imports.get(recv, "")
-            ctx.require(imp.endswith("_view_raw.raw"), f"prettify_message: unprotected {norm(c.func)}() on something other than the raw view (not modelled)")
-            inst = ctx.model.module(RAW).assigns("raw")
-            ctx.require(len(inst) == 1 and isinstance(inst[0], ast.Call) and call_name(inst[0]) == "RawContentview", f"{RAW}: raw is not RawContentview()")
-            rp = ctx.func(RAW, "RawContentview.prettify")
-            body = stmts_of(rp)
-            ctx.require(len(body) == 1 and isinstance(body[0], ast.Return) and isinstance(body[0].value, ast.Call) and last_attr(body[0].value.func) == "decode"
-                        and attr_chain(body[0].value.func.value) == params_of(rp)[1], f"RawContentview.prettify is no longer `return data.decode(...)`: {norm(rp)}")
-            d = body[0].value
-            err = kwarg(d, "errors") or (d.args[1] if len(d.args) > 1 else None)
-            enc = kwarg(d, "encoding") or (d.args[0] if d.args else None)
-            total = isinstance(err, ast.Constant) and err.value in ("backslashreplace", "replace", "ignore") and (enc is None or (isinstance(enc, ast.Constant) and str(enc.value).lower().replace("-", "") in ("utf8", "latin1", "ascii")))
-            ctx.check(total, "R50.1", (RAW, "RawContentview.prettify", rp), norm(body[0]), "the fallback view itself raises on undecodable bytes, outside any handler",
-                      desc=f"fallback {recv}.prettify is total: {norm(body[0])}")
-    trs, eng = traces_of(fn, PrettifySpec())
-    ctx.paths += len(trs)
-    rets = [(tr, how) for tr, how, _ in trs if how == "return"]
-    ctx.require(ctx.findings or len(rets) >= 3, f"prettify_message: only {len(rets)} returning paths found (exception edges not recognised?)")
-    bad = None
-    n_esc = 0
-    for tr, how in rets:
-        r = [e for e in tr if e[0] == "return"][-1][1]
-        if r == "<direct>":
-            c = [e for e in tr if e[0] == "construct" and e[1] == "<direct>"][-1]
-            if c[2] != "const":
-                bad = bad or ("a freshly built result with non-constant text is returned without escaping", tr)
+    w = World(ctx.model)
+    it = w.it
+    raw = w.raw_view()
+    params = params_of(fn)
+    ctx.require(len(params) >= 3, f"prettify_message no longer takes (message, flow, view_name, registry): {params}")
+    runs = []  # (description, message, view_name, registry)
+    nasty = w.view("Nasty", text=HOSTILE_TEXT, prio=5.0)
+    calm = w.view("Calm", text="fine", prio=0.5)
+    for data in DATA:
+        msg = tcp_message(data)
+        for mode in ("auto", "explicit", "explicit, other case"):
+            vn = {"auto": "auto", "explicit": "nasty", "explicit, other case": "NaStY"}[mode]
+            runs.append((f"hostile view output, {mode}, data {data[:12]!r}", msg, vn, w.registry([raw, calm, nasty])))
+        for exc in EXCEPTIONS if data is DATA[2] else EXCEPTIONS[:PRIMARY]:
+            broken = w.view("Broken", exc=exc, prio=9.0)
+            runs.append((f"view raises {exc}, auto, data {data[:12]!r}", msg, "auto", w.registry([raw, calm, broken]), ["prettify_message", "prettify"]))
+            for frames in (["prettify_message", "prettify"], ["prettify_message"], ["outer", "prettify_message", "prettify", "inner"])[: 3 if exc in EXCEPTIONS[:PRIMARY] else 1]:
+                runs.append((f"view raises {exc}, explicit, traceback {len(frames)} frames, data {data[:12]!r}", msg, "broken", w.registry([raw, calm, broken]), frames))
+        runs.append((f"raw view, explicit, data {data[:12]!r}", msg, "raw", w.registry([raw, calm])))
+        runs.append((f"unknown view name, data {data[:12]!r}", msg, "no-such-view", w.registry([raw, calm, nasty])))
+        runs.append((f"a view's render_priority raises, auto, data {data[:12]!r}", msg, "auto", w.registry([raw, nasty, w.view("BadPrio", text="x", prio_exc="ValueError")])))
+    runs.append(("message without content", tcp_message(None), "auto", w.registry([raw, nasty])))
+    runs.append(("HTTP message, hostile content-encoding, hostile view", http_message(b"decoded \x1b", b"raw", "gz\x1b\x00\x9bip"), "auto", w.registry([raw, nasty])))
+    runs.append(("HTTP message, hostile content-encoding, view raises", http_message(b"decoded \x1b", b"raw", "gz\x1b\x00\x9bip"), "auto", w.registry([raw, w.view("Broken", exc="ValueError", prio=9.0)])))
+    runs.append(("HTTP message, hostile content-encoding, explicit view raises", http_message(b"decoded \x1b", b"raw", "gz\x1b\x00\x9bip"), "broken", w.registry([raw, w.view("Broken", exc="ValueError", prio=9.0)])))
+    runs.append(("HTTP message that cannot be decoded", undecodable_http_message(b"\x1f\x8b\x00 \x1b"), "auto", w.registry([raw, nasty])))
+
+    bad: dict = {}
+    n_ok = n_escaped = n_fallback = n_error = 0
+    for run in runs:
+        desc, msg, vn, reg = run[:4]
+        w.frames = run[4] if len(run) > 4 else ["prettify_message", "prettify"]
+        it.steps = 0
+        kwargs = {params[2]: vn} if len(params) > 2 else {}
+        if len(params) > 3:
+            kwargs[params[3]] = reg
+        o = it.outcome(lambda: it.call(CV, "prettify_message", msg, FLOW, **kwargs))
+        ctx.paths += 1
+        if o[0] == "raise":
+            bad.setdefault(("raises", f"prettify_message: an exception escapes"), []).append(f"{desc}: {o[1]}")
             continue
-        idx = [i for i, e in enumerate(tr) if e[0] in ("construct", "rebind") and e[1] == r]
-        if not idx or tr[idx[-1]][0] == "rebind":
-            raise AnalysisError(f"prettify_message: origin of the returned `{r}` not modelled on path {list(tr)}")
-        last = idx[-1]
-        esc = [i for i, e in enumerate(tr) if e == ("escape", r) and i > last]
-        dirty = [i for i, e in enumerate(tr) if e == ("settext", r) and (not esc or i > esc[-1])]
-        if tr[last][2] == "const" and not dirty:
+        res = o[1]
+        text = res.__dict__.get("text") if isinstance(res, Rec) else None
+        if not isinstance(text, str):
+            raise AnalysisError(f"prettify_message: the interpreted result is not an object with a str `text` ({desc}): {res!r}")
+        cps = leaked(text)
+        if cps:
+            bad.setdefault(("control", "prettify_message: control characters reach the returned text"), []).append(f"{desc}: {classes_of(cps)} e.g. U+{cps[0]:04X} in {text[:40]!r}")
             continue
-        if not esc or dirty:
-            bad = bad or (f"`{r}` is returned although its text did not pass through escape_control_characters after it was last set", tr)
-        else:
-            n_esc += 1
-    ctx.check(not bad, "R50.1", W, f"prettify_message: {bad[0] if bad else ''}", f"{bad[0] if bad else ''} (path {list(bad[1]) if bad else ''}): control characters reach the UI / terminal",
-              desc=f"prettify_message: every returned non-constant result is escaped after its last text assignment ({len(rets)} returning paths, {n_esc} escaped)")
+        n_ok += 1
+        if "head" in text and "tail" in text:
+            n_escaped += 1
+        if "undecodable" in text or "plain text" in text or "ctl" in text:
+            n_fallback += 1
+        if "could not parse" in text or "bad input" in text or "cannot prettify" in text:
+            n_error += 1
+    for (kind, construct), examples in bad.items():
+        why = "an exception raised by a content view (or by the fallback) escapes prettify_message" if kind == "raises" else "control characters reach the UI / terminal"
+        ctx.fail("R50.1", W, construct, f"{why}: {examples[0]} [{len(examples)} of {len(runs)} worlds: {'; '.join(e.split(':')[0] for e in examples[:5])}]", worlds=examples[:30])
+    if not bad:
+        ctx.require(n_escaped >= 3 and n_fallback >= 3 and n_error >= 3, f"prettify_message worlds: the hostile view output ({n_escaped}), the raw fallback ({n_fallback}) or the error display ({n_error}) were not exercised (world model out of date)")
+        ctx.ok("R50.1", f"prettify_message: {len(runs)} worlds - hostile view output is returned escaped ({n_escaped}), a raising view falls back to the raw view / an error text ({n_fallback} / {n_error}), nothing escapes")
+        ctx.ok("R50.1", f"prettify_message: the raw fallback ({raw._impl[1]}.prettify) renders undecodable bytes without raising")
+    return w
 
 
-def check_get_view(ctx):
+def check_get_view(ctx, w):
     fn = ctx.func(REGF, "ContentviewRegistry.get_view")
     W = (REGF, "ContentviewRegistry.get_view", fn)
-    rps = [c for c in own_nodes(fn) if isinstance(c, ast.Call) and isinstance(c.func, ast.Attribute) and c.func.attr == "render_priority"]
-    ctx.require(rps, "get_view never calls render_priority")
-    ok = True
-    for c in rps:
-        t = protecting_try(c, fn)
-        ok = ok and t is not None and not any(isinstance(x, ast.Raise) for h in t.handlers if catches_everything(h) for x in ast.walk(h))
-    ctx.check(ok, "R50.1", W, "render_priority(...) not under a non-raising `except Exception`", "a broken view makes automatic view selection raise for every message",
-              desc="get_view: render_priority guarded by a non-raising except Exception")
-    looks = [s for s in own_nodes(fn) if isinstance(s, ast.Subscript) and attr_chain(s.value) in ("self", "self._by_name") and isinstance(s.ctx, ast.Load)]
-    ok = bool(looks)
-    for s in looks:
-        cur, prot = s, False
-        while cur is not fn:
-            par = cur._parent
-            if isinstance(par, ast.Try) and cur in par.body:
-                for h in par.handlers:
-                    names = [last_attr(e) for e in (h.type.elts if isinstance(h.type, ast.Tuple) else [h.type])] if h.type is not None else ["BaseException"]
-                    if set(names) & {"KeyError", "LookupError", "Exception", "BaseException"} and not any(isinstance(x, ast.Raise) for x in ast.walk(h)):
-                        prot = True
-            cur = par
-        ok = ok and prot
-    ctx.check(ok, "R50.1", W, "explicit view lookup not under a non-raising `except KeyError`", "an unknown view name raises instead of falling back to the best match",
-              desc="get_view: unknown explicit view name falls back to automatic selection")
+    it = w.it
+    params = params_of(fn)
+    meta = Rec("Metadata", _name="metadata", flow=None, content_type=None, http_message=None, tcp_message=None, udp_message=None, websocket_message=None, dns_message=None, protobuf_definitions=None, original_data=None)
+    good, best = w.view("Good", text="g", prio=1.0), w.view("Best", text="b", prio=7.5)
+    runs = []
+    for exc in EXCEPTIONS:
+        failing = w.view("Failing", text="f", prio_exc=exc)
+        runs.append((f"render_priority raises {exc}", "prio", "auto", [failing, good, best, w.view("Last", text="l", prio_exc=exc)]))
+    runs.append(("render_priority returns a str", "prio", "auto", [w.view("Odd", text="o", prio="high"), good]))
+    runs.append(("render_priority returns None", "prio", "auto", [good, w.view("Odd", text="o", prio=None)]))
+    runs.append(("all priorities work", "plain", "auto", [good, best]))
+    runs.append(("explicit name", "plain", "best", [good, best]))
+    runs.append(("explicit name, other case", "plain", "BEST", [good, best]))
+    runs.append(("unknown name", "name", "nope", [good, best]))
+    runs.append(("unknown name, a render_priority raises", "name", "nope", [w.view("Failing", text="f", prio_exc="ValueError"), good]))
+    bad: dict = {}
+    for desc, kind, vn, views in runs:
+        reg = w.registry(views)
+        it.steps = 0
+        o = it.outcome(lambda: it.method(reg, "get_view", b"data", meta, vn))
+        ctx.paths += 1
+        if o[0] == "raise":
+            if kind == "name":
+                bad.setdefault(("get_view: raises for an unknown view name", "an unknown view name raises instead of falling back to the best match"), []).append(f"{desc}: {o[1]}")
+            else:
+                bad.setdefault(("get_view: raises when a view's render_priority fails", "a broken view makes automatic view selection raise for every message"), []).append(f"{desc}: {o[1]}")
+        elif not any(o[1] is v for v in views):
+            bad.setdefault(("get_view: does not return a registered view", "the caller renders with something that is not a content view"), []).append(f"{desc}: {o[1]!r}")
+    for (construct, why), examples in bad.items():
+        ctx.fail("R50.1", W, construct, f"{why}: {examples[0]} [{len(examples)} worlds]", worlds=examples[:20])
+    if not any("render_priority" in c for c, _ in bad):
+        ctx.ok("R50.1", f"get_view: a raising / ill-typed render_priority ({len(EXCEPTIONS)} exception classes) does not stop automatic selection")
+    if not any("unknown" in c for c, _ in bad):
+        ctx.ok("R50.1", "get_view: unknown explicit view name falls back to automatic selection")
 
 
 def eval_table_program(ctx):
@@ -293,8 +433,10 @@ def check_escape_semantics(ctx):
     fn = ctx.func(STR, "escape_control_characters")
     W = (STR, "escape_control_characters", fn)
     ks = params_of(fn)[1] if len(params_of(fn)) > 1 else None
-    ctx.require(ks is not None and fn.args.defaults and isinstance(fn.args.defaults[-1], ast.Constant) and fn.args.defaults[-1].value is True,
-                "escape_control_characters: keep_spacing (default True) parameter not found")
+    if ks is None:
+        # (no spacing switch any more: the worlds of prettify_message, whose hostile view output holds every control code point, are the decision)
+        ctx.note("escape_control_characters has no second (keep_spacing) parameter: decided through the prettify_message worlds only")
+        return
     res, _ = interpret_sanitiser(ctx.model, STR, "escape_control_characters", keep_kw=ks)
     leaked, example = res[True]  # prettify_message calls it with the default
     n_in = len(control_character_domain())
@@ -347,140 +489,299 @@ def check_escape_table(ctx):
 
 
 def dataclass_fields(ctx, cls_name):
+    """[(name, annotation text)] of the dataclass fields (ClassVars excepted), in order"""
     cls = ctx.model.cls(DNS, cls_name)
     ctx.require(any(norm(d).startswith("dataclass") for d in cls.decorator_list), f"{cls_name} is not a dataclass any more")
     out = []
     for st in cls.body:
         if isinstance(st, ast.AnnAssign) and isinstance(st.target, ast.Name) and "ClassVar" not in norm(st.annotation):
-            out.append(st.target.id)
+            out.append((st.target.id, norm(st.annotation)))
     return out
 
 
-def json_writes(ctx, cls_name):
-    """key -> value node of the dict literal that to_json returns (directly or through a local)"""
-    fn = ctx.func(DNS, f"{cls_name}.to_json")
-    dicts = [n for n in own_nodes(fn) if isinstance(n, ast.Dict)]
-    ctx.require(len(dicts) == 1 and all(isinstance(k, ast.Constant) for k in dicts[0].keys), f"{cls_name}.to_json: dict literal not modelled")
-    out = {k.value: v for k, v in zip(dicts[0].keys, dicts[0].values)}
-    for n in own_nodes(fn):
-        if isinstance(n, ast.Assign) and isinstance(n.targets[0], ast.Subscript) and isinstance(n.targets[0].slice, ast.Constant):
-            out[n.targets[0].slice.value] = n.value
-    return fn, out
+class YamlText(str):
+    """what the (trusted, identity) YAML codec renders: the text stands for exactly this value"""
+
+    def __new__(cls, value):
+        s = str.__new__(cls, f"<yaml rendering of {len(value) if hasattr(value, '__len__') else 1} entries>")
+        s.value = value
+        return s
 
 
-def json_reads(ctx, cls_name):
-    """field -> value node of the cls(...) call in from_json ; plus all keys read from the data parameter"""
-    fn = ctx.func(DNS, f"{cls_name}.from_json")
-    ps = params_of(fn)
-    ctor = [c for c in own_nodes(fn) if isinstance(c, ast.Call) and isinstance(c.func, ast.Name) and c.func.id == ps[0]]
-    ctx.require(len(ctor) == 1 and not ctor[0].args and all(k.arg for k in ctor[0].keywords), f"{cls_name}.from_json: constructor call not modelled")
-    fields = {k.arg: k.value for k in ctor[0].keywords}
-    required, optional = set(), set()
-    for n in own_nodes(fn):
-        if isinstance(n, ast.Subscript) and isinstance(n.value, ast.Name) and n.value.id == ps[1] and isinstance(n.slice, ast.Constant):
-            required.add(n.slice.value)
-        elif isinstance(n, ast.Call) and attr_chain(n.func) == f"{ps[1]}.get" and n.args and isinstance(n.args[0], ast.Constant):
-            optional.add(n.args[0].value)
-        elif isinstance(n, ast.Assign) and isinstance(n.targets[0], ast.Attribute) and isinstance(n.targets[0].value, ast.Name):
-            fields.setdefault("+" + n.targets[0].attr, n.value)
-    return fn, ps[1], fields, required, optional
+def _deep(v):
+    if isinstance(v, dict):
+        return {k: _deep(x) for k, x in v.items()}
+    if isinstance(v, (list, tuple)):
+        return [_deep(x) for x in v]
+    return v
 
 
-def keys_read(expr, data):
-    return {n.slice.value for n in ast.walk(expr) if isinstance(n, ast.Subscript) and isinstance(n.value, ast.Name) and n.value.id == data and isinstance(n.slice, ast.Constant)}
+class DnsInterp(XInterp):
+    """XInterp with the three library boundaries of the DNS view: ``DNSMessage.unpack`` / ``unpack_from`` yield the world's message, the YAML
+    codec (functions built on ruamel.yaml's ``YAML().dump`` / ``.load``) is the identity, ``pack_message`` / ``DNSMessage.packed`` record
+    the message that is being serialised."""
+
+    def __init__(self, model):
+        XInterp.__init__(self, model, trusted_modules=trusted_stdlib())
+        self.message = None
+        self.packed_msgs: list = []
+        self._roles: dict = {}
+
+    def role(self, f):
+        k = id(f.node)
+        if k not in self._roles:
+            r = None
+            node, mod = f.node, f.mod
+            name = getattr(node, "name", "")
+            qual = getattr(node, "_qual", name)
+            if mod.rel == DNS and qual in ("DNSMessage.unpack", "DNSMessage.unpack_from"):
+                r = name
+            elif mod.rel == DNS and qual == "DNSMessage.packed":
+                r = "packed"
+            elif mod.rel == LAYER and qual == "pack_message":
+                r = "pack_message"
+            elif isinstance(node, ast.FunctionDef) and any(t.startswith("ruamel") for t in mod.imports.values()):
+                uses_yaml = any(isinstance(c, ast.Call) and mod.imports.get(last_attr(c.func), "").startswith("ruamel") for c in ast.walk(node))
+                attrs = {c.func.attr for c in ast.walk(node) if isinstance(c, ast.Call) and isinstance(c.func, ast.Attribute)}
+                if uses_yaml and "dump" in attrs:
+                    r = "yaml_dump"
+                elif uses_yaml and "load" in attrs:
+                    r = "yaml_load"
+            self._roles[k] = r
+        return self._roles[k]
+
+    def call_func(self, f, args, kwargs, depth):
+        r = self.role(f)
+        if r is None:
+            return XInterp.call_func(self, f, args, kwargs, depth)
+        vals = list(args) + list(kwargs.values())
+        if r == "unpack":
+            return self.message
+        if r == "unpack_from":
+            data = next((v for v in vals if isinstance(v, (bytes, bytearray))), b"")
+            return (len(data), self.message)
+        if r == "yaml_dump":
+            v = next((v for v in vals if isinstance(v, (dict, list))), None)
+            if v is None:
+                raise AnalysisError("DNS view: the YAML dump is handed something that is not the JSON value of the message (not modelled)")
+            return YamlText(_deep(v))
+        if r == "yaml_load":
+            v = next((v for v in vals if isinstance(v, str)), None)
+            if not isinstance(v, YamlText):
+                raise AnalysisError("DNS view: the text given to the YAML loader is not the unedited rendering (post-processed: not modelled)")
+            return _deep(v.value)
+        msg = next((v for v in vals if isinstance(v, Rec) and v._cls == "DNSMessage"), None)
+        if msg is None:
+            raise AnalysisError(f"DNS view: {r} is not handed a DNSMessage")
+        self.packed_msgs.append(msg)
+        return b"<packed message>"
 
 
-def codec(expr, suffix):
-    """module of an enclosing <m>.to_str / <m>.from_str call, or element-wise <Cls>.to_json / from_json"""
-    for n in ast.walk(expr):
-        if isinstance(n, ast.Call) and isinstance(n.func, ast.Attribute) and n.func.attr == suffix:
-            return attr_chain(n.func.value)
-    return None
+A, NS, CNAME, TXT, AAAA = 1, 2, 5, 16, 28
 
 
-def check_fields(ctx, cls_name, skip=(), lenient=()):
-    fields = [f for f in dataclass_fields(ctx, cls_name) if f not in skip]
-    wfn, writes = json_writes(ctx, cls_name)
-    rfn, data, reads, required, optional = json_reads(ctx, cls_name)
+def rr_worlds():
+    """(name, type, class, ttl, data) covering TTL 0, known / unknown types and classes, the record data codecs"""
+    return [
+        ("a.example.com", A, 1, 0, bytes([192, 0, 2, 1])),
+        ("aaaa.example.com", AAAA, 1, 300, bytes(range(16))),
+        ("alias.example.com", CNAME, 1, 60, b"\x06target\x07example\x03com\x00"),
+        ("txt.example.com", TXT, 3, 77, "text é \"quoted\"".encode()),
+        ("opaque.example.com", 999, 254, 4294967295, b"\x00\xff\x10"),
+        ("ns.example.com", NS, 4, 1, b"\x02ns\x07example\x03com\x00"),
+        ("empty.example.com", 15, 1, 5, b""),
+    ]
+
+
+def question_worlds():
+    return [("example.com", A, 1), ("xn--bcher-kva.example", AAAA, 3), ("q.example", 65280, 65535), ("", TXT, 255)]
+
+
+def build(it, model, cls_name, **fields):
+    return it.call_value(ClassRef(model.module(DNS), model.cls(DNS, cls_name)), **fields)
+
+
+def message_worlds(ctx, it):
+    """DNSMessage records: every dataclass field gets at least two different values over the family"""
+    m = ctx.model
+    fields = dataclass_fields(ctx, "DNSMessage")
+    qs = [build(it, m, "Question", name=n, type=t, class_=c) for n, t, c in question_worlds()]
+    mk = lambda rows: [build(it, m, "ResourceRecord", name=n, type=t, class_=c, ttl=ttl, data=d) for n, t, c, ttl, d in rows]  # noqa: E731
+    rows = rr_worlds()
+    out = []
+    for k in range(4):
+        vals = {}
+        n_int = n_bool = n_list = 0
+        for name, ann in fields:
+            if name == "timestamp":
+                vals[name] = [None, 1700000000.5, None, 12.25][k]
+            elif ann == "bool":
+                vals[name] = [True, False, bool(n_bool % 2), not (n_bool % 2)][k]
+                n_bool += 1
+            elif ann == "int":
+                # id / op_code / reserved / response_code ...: small values that are valid for every header field; known and unknown code points
+                vals[name] = [0, [4660, 9, 5, 3, 6, 2][n_int % 6], [65535, 2, 7, 23, 1, 4][n_int % 6], [1, 5, 0, 0, 3, 1][n_int % 6]][k]
+                n_int += 1
+            elif ann == "list[Question]":
+                vals[name] = [qs[:1], qs[1:], [], qs][k]
+            elif ann == "list[ResourceRecord]":
+                part = [[rows[:1], rows[1:3], rows[3:5]], [rows[5:], rows[:2], rows[2:]], [[], [], []], [rows[4:6], [], rows[:1]]][k][n_list % 3]
+                vals[name] = mk(part)
+                n_list += 1
+            else:
+                raise AnalysisError(f"DNSMessage.{name}: {ann}: a field of a type the R50.2 world model does not know (extend message_worlds)")
+        out.append(build(it, m, "DNSMessage", **vals))
+    return fields, out
+
+
+def plain(v):
+    """comparable value of a record / list of records"""
+    if isinstance(v, Rec):
+        return {k: plain(x) for k, x in v.__dict__.items() if not k.startswith("_")}
+    if isinstance(v, (list, tuple)):
+        return [plain(x) for x in v]
+    if isinstance(v, bytearray):
+        return bytes(v)
+    return v
+
+
+def check_codec(ctx, it, cls_name, instances, skip=()):
+    """X.from_json(X.to_json()) field by field.  -> set of field names reported"""
+    m = ctx.model
+    rfn = ctx.func(DNS, f"{cls_name}.from_json")
+    ctx.func(DNS, f"{cls_name}.to_json")
+    where = (DNS, f"{cls_name}.from_json", rfn)
+    cref = ClassRef(m.module(DNS), m.cls(DNS, cls_name))
+    from_json = it.getattr(cref, "from_json", None, 0)
+    fields = [f for f, _ in dataclass_fields(ctx, cls_name) if f not in skip]
+    pairs = []
+    for inst in instances:
+        it.steps = 0
+        o = it.outcome(lambda: it.method(inst, "to_json"))
+        if o[0] == "raise":
+            ctx.fail("R50.2", (DNS, f"{cls_name}.to_json", ctx.func(DNS, f"{cls_name}.to_json")), f"{cls_name}.to_json raises {o[1]}", f"rendering {plain(inst)} raises {o[1]}")
+            return set(fields)
+        if not isinstance(o[1], dict):
+            raise AnalysisError(f"{cls_name}.to_json does not evaluate to a dict: {o[1]!r}")
+        j = o[1]
+        o2 = it.outcome(lambda: it.call_value(from_json, _deep(j)))
+        if o2[0] == "raise":
+            ctx.fail("R50.2", where, f"{cls_name}.from_json raises {o2[1]} on what to_json produced", f"from_json({j}) raises {o2[1]}: the unedited rendering cannot be re-encoded")
+            return set(fields)
+        if not isinstance(o2[1], Rec):
+            raise AnalysisError(f"{cls_name}.from_json does not evaluate to a record: {o2[1]!r}")
+        pairs.append((inst, j, o2[1]))
+    reported = set()
     for f in fields:
-        wkeys = [k for k, v in writes.items() if any(attr_chain(n) == f"self.{f}" for n in ast.walk(v) if isinstance(n, ast.Attribute))
-                 and not any(isinstance(c, ast.Call) and attr_chain(c.func).endswith("http_equiv_status_code") for c in ast.walk(v))]
-        rv = reads.get(f)
-        where = (DNS, f"{cls_name}.from_json", rfn)
-        if f in lenient:
-            ok = f in required or any(f in keys_read(v, data) for v in reads.values())
-            ctx.check(ok and any(("self._" + f + "_json") in norm(v) or f"self.{f}" in norm(v) for v in writes.values()), "R50.2", where, f"{cls_name}.{f} not carried through to_json / from_json",
-                      f"record {f} is lost in the DNS view round-trip", desc=f"{cls_name}.{f}: written as '{f}', rebuilt from data['{f}'] (rdata codec not analysed)")
+        diffs = [(plain(a.__dict__.get(f)), plain(b.__dict__.get(f, "<unset>"))) for a, j, b in pairs if plain(a.__dict__.get(f)) != plain(b.__dict__.get(f, "<unset>"))]
+        if not diffs:
+            ctx.ok("R50.2", f"{cls_name}.{f}: to_json -> from_json gives it back ({len(pairs)} instances, {len({repr(plain(a.__dict__.get(f))) for a, _, _ in pairs})} distinct values)")
             continue
-        rkeys = keys_read(rv, data) if rv is not None else set()
-        if not wkeys or not rkeys:
-            how = []
-            if not wkeys:
+        reported.add(f)
+        # why: does the rendering depend on the field at all / is the rebuilt value a constant?
+        base = pairs[0][0]
+        other = next((a for a, _, _ in pairs if plain(a.__dict__.get(f)) != plain(base.__dict__.get(f))), None)
+        how = []
+        if other is not None:
+            twin = Rec(base._cls, _bases=base._bases, _impl=base._impl, **{k: v for k, v in base.__dict__.items() if not k.startswith("_")})
+            object.__setattr__(twin, f, other.__dict__.get(f))
+            oj = it.outcome(lambda: it.method(twin, "to_json"))
+            if oj[0] == "ok" and oj[1] == pairs[0][1]:
                 how.append("to_json does not write it")
-            if rv is None:
-                how.append("from_json does not set it")
-            elif not rkeys:
-                how.append(f"from_json sets {f}={norm(rv)}")
-            ctx.fail("R50.2", where, f"{cls_name} field '{f}' is not carried through to_json/from_json ({'; '.join(how)})",
-                     f"re-encoding an unedited DNS view rendering changes the {f} field of the message")
-            continue
-        common = set(wkeys) & rkeys
-        if not common:
-            ctx.fail("R50.2", where, f"{cls_name} field '{f}' is written as {sorted(wkeys)} but read from {sorted(rkeys)}", f"the {f} field is rebuilt from a different JSON key")
-            continue
-        k = sorted(common)[0]
-        wc, rc = codec(writes[k], "to_str"), codec(rv, "from_str")
-        wj, rj = codec(writes[k], "to_json") is not None, codec(rv, "from_json")
-        ok = wc == rc and (wj == (rj is not None))
-        ctx.check(ok, "R50.2", where, f"{cls_name} field '{f}': written with {wc or ('to_json' if wj else 'identity')}, read with {rc or (rj and rj + '.from_json') or 'identity'}",
-                  f"the {f} field is encoded and decoded with different codecs", desc=f"{cls_name}.{f} <-> '{k}'" + (f" via {wc}.to_str/from_str" if wc else " via to_json/from_json" if wj else ""))
-    return required, optional
+        backs = {repr(plain(b.__dict__.get(f, "<unset>"))) for _, _, b in pairs}
+        if len(backs) == 1 and len({repr(plain(a.__dict__.get(f))) for a, _, _ in pairs}) > 1:
+            how.append(f"from_json sets {f}={next(iter(backs))}")
+        if not how:
+            how.append(f"{diffs[0][0]!r} comes back as {diffs[0][1]!r}")
+        ctx.fail("R50.2", where, f"{cls_name} field '{f}' is not carried through to_json/from_json ({'; '.join(how)})",
+                 f"re-encoding an unedited DNS view rendering changes the {f} field of the message ({len(diffs)} of {len(pairs)} instances, e.g. {diffs[0][0]!r} -> {diffs[0][1]!r})")
+    return reported
 
 
-def check_dns_view(ctx, required):
-    fn = ctx.func(DNSV, "DNSContentview.prettify")
-    deleted = set()
-    for n in own_nodes(fn):
-        if isinstance(n, ast.Delete):
-            for t in n.targets:
-                if isinstance(t, ast.Subscript) and isinstance(t.slice, ast.Constant):
-                    deleted.add(t.slice.value)
-                else:
-                    raise AnalysisError(f"DNSContentview.prettify: {norm(n)} not modelled")
-        elif isinstance(n, ast.Call) and isinstance(n.func, ast.Attribute) and n.func.attr in ("pop", "popitem", "clear") and isinstance(n.func.value, ast.Name):
-            if n.func.attr != "pop" or not n.args or not isinstance(n.args[0], ast.Constant):
-                raise AnalysisError(f"DNSContentview.prettify: {norm(n)} not modelled")
-            deleted.add(n.args[0].value)
-    lost = sorted(deleted & required)
-    ctx.check(not lost, "R50.2", (DNSV, "DNSContentview.prettify", fn), f"DNS view removes {lost} from the rendering", "DNSMessage.from_json needs these keys: re-encoding the unedited rendering raises KeyError",
-              desc=f"DNS view hides {sorted(deleted)}; none of them is needed by from_json")
-    src = [c for c in own_nodes(fn) if isinstance(c, ast.Call) and norm(c.func).endswith(".to_json")]
-    ctx.require(len(src) == 1 and norm(src[0].func.value).startswith("DNSMessage.unpack("), "DNSContentview.prettify no longer renders DNSMessage.unpack(data).to_json()")
-    re_fn = ctx.func(DNSV, "DNSContentview.reencode")
-    ctx.require(any(isinstance(c, ast.Call) and call_name(c) == "DNSMessage.from_json" for c in own_nodes(re_fn)), "DNSContentview.reencode no longer uses DNSMessage.from_json")
+def dns_view(ctx, it):
+    """the interactive view defined in _view_dns.py (whatever it is called), instantiated"""
+    mod = ctx.model.module(DNSV)
+    cands = [d for q, d in mod.defs().items() if isinstance(d, ast.ClassDef) and {"prettify", "reencode"} <= {s.name for s in d.body if isinstance(s, ast.FunctionDef)}]
+    ctx.require(len(cands) == 1, f"{DNSV}: expected exactly one class with prettify and reencode, found {[c.name for c in cands]}")
+    ctx.functions.add(f"{DNSV}::{cands[0].name}.prettify")
+    ctx.functions.add(f"{DNSV}::{cands[0].name}.reencode")
+    return cands[0], it.call_value(ClassRef(mod, cands[0]))
+
+
+def check_dns_view(ctx, it, fields, messages, already):
+    cls, view = dns_view(ctx, it)
+    meta_cls = ClassRef(ctx.model.module(API), ctx.model.cls(API, "Metadata"))
+    Wp = (DNSV, f"{cls.name}.prettify", cls)
+    names = [f for f, _ in fields if f != "timestamp" and f not in already]
+    bad: dict = {}
+    n = 0
+    for transport in ("udp", "tcp", "http"):
+        for msg in messages:
+            meta = it.call_value(meta_cls)
+            if transport != "udp":
+                object.__setattr__(meta, f"{transport}_message", Rec("TCPMessage" if transport == "tcp" else "Request", _name="carrier"))
+            else:
+                object.__setattr__(meta, "udp_message", Rec("UDPMessage", _name="carrier"))
+            it.message, it.packed_msgs, it.steps = msg, [], 0
+            it.log, it.log_enabled = [], True
+            o = it.outcome(lambda: it.method(view, "prettify", b"\x00\x2a<wire format>", meta))
+            if o[0] == "raise":
+                bad.setdefault(f"DNS view: prettify raises {o[1]}", []).append(transport)
+                continue
+            if not isinstance(o[1], YamlText):
+                raise AnalysisError(f"DNS view: prettify does not return the YAML rendering of the message's JSON value unchanged (not modelled): {o[1]!r}")
+            o2 = it.outcome(lambda: it.method(view, "reencode", o[1], meta))
+            it.log_enabled = False
+            n += 1
+            if o2[0] == "raise":
+                lost = sorted(set(plain(msg)) - set(o[1].value)) if isinstance(o[1].value, dict) else []
+                bad.setdefault(f"DNS view: re-encoding the unedited rendering raises {o2[1]}", []).append(f"{transport}: rendering has the keys {sorted(o[1].value) if isinstance(o[1].value, dict) else '?'}")
+                continue
+            back = it.packed_msgs[-1] if it.packed_msgs else next((res for _, rel, q, res in reversed(it.log) if rel == DNS and q == "DNSMessage.from_json" and isinstance(res, Rec)), None)
+            if back is None:
+                raise AnalysisError("DNS view: reencode neither serialises a DNSMessage nor calls DNSMessage.from_json (not modelled)")
+            for f in names:
+                if plain(msg.__dict__.get(f)) != plain(back.__dict__.get(f, "<unset>")):
+                    bad.setdefault(f"DNS view: prettify -> reencode changes DNSMessage.{f}", []).append(f"{transport}: {plain(msg.__dict__.get(f))!r} -> {plain(back.__dict__.get(f, '<unset>'))!r}")
+    for construct, ex in bad.items():
+        ctx.fail("R50.2", Wp, construct, f"re-encoding the unedited rendering of the DNS view does not give the message back: {ex[0]} [{len(ex)} worlds]")
+    if not bad:
+        ctx.ok("R50.2", f"DNS view ({cls.name}): reencode(prettify(data)) gives back {len(names)} header fields / sections for {n} (message, transport) worlds")
+
+
+def check_dns(ctx):
+    it = DnsInterp(ctx.model)
+    m = ctx.model
+    qs = [build(it, m, "Question", name=n, type=t, class_=c) for n, t, c in question_worlds()]
+    rrs = [build(it, m, "ResourceRecord", name=n, type=t, class_=c, ttl=ttl, data=d) for n, t, c, ttl, d in rr_worlds()]
+    fields, messages = message_worlds(ctx, it)
+    reported = check_codec(ctx, it, "Question", qs)
+    reported |= check_codec(ctx, it, "ResourceRecord", rrs)
+    sections = tuple(f for f, ann in fields if ann.startswith("list[")) if reported else ()  # (a field lost inside the records is reported there, once)
+    top = check_codec(ctx, it, "DNSMessage", messages, skip=("timestamp",) + sections)
+    check_dns_view(ctx, it, fields, messages, top | set(sections))
+    ctx.cells += len(qs) + len(rrs) + len(messages) * 4
 
 
 def check(ctx):
-    ctx.rule("R50.1", "prettify_message returns only escaped or constant text, runs view code under except Exception with a total raw fallback; get_view is "
-             "exception-safe; the escape table covers C0, DEL, C1 except TAB/LF/CR")
-    ctx.rule("R50.2", "every DNSMessage / Question / ResourceRecord field is written by to_json and read back by from_json with matching codecs; the DNS view "
-             "hides no key from_json needs")
-    check_prettify_message(ctx)
-    check_get_view(ctx)
-    check_escape_semantics(ctx)
+    ctx.rule("R50.1", "in every world (hostile view output, raising views, undecodable bytes, hostile error text) prettify_message returns text without control "
+             "characters other than TAB/LF/CR and no exception escapes it; get_view survives failing views and unknown names; the sanitiser covers C0, DEL, C1")
+    ctx.rule("R50.2", "to_json -> from_json and the DNS view's prettify -> reencode give back every DNSMessage / Question / ResourceRecord field")
+    # (guarded: a violation found by one part takes precedence over a construct another part cannot model)
+    w = ctx.guard(check_prettify_message, ctx)
+    ctx.guard(check_get_view, ctx, w or World(ctx.model))
+    ctx.guard(check_escape_semantics, ctx)
     try:
         check_escape_table(ctx)
-    except AnalysisError as e:
+    except (AnalysisError, TypeError, ValueError, KeyError, AttributeError, IndexError) as e:  # (a table shape the structural reading does not know)
         ctx.note(f"R50.1 structural reading of the escape table not available ({e}); the interpreted sanitiser is the decision")
-    required, _ = check_fields(ctx, "DNSMessage", skip=("timestamp",))
-    check_fields(ctx, "Question")
-    check_fields(ctx, "ResourceRecord", lenient=("data",))
-    check_dns_view(ctx, required)
+    ctx.guard(check_dns, ctx)
     ctx.assume("timestamp is capture metadata, not part of the DNS message (the DNS view hides it)")
-    ctx.trust("str.translate / str.maketrans; bytes.decode with a non-strict error handler never raises")
+    ctx.assume("views, messages and metadata behave like mitmproxy's Contentview / message / Metadata API for the attributes the interpreted code reads (world model in C50.py)")
+    ctx.trust("str.translate / str.maketrans; bytes.decode with a non-strict error handler never raises; the YAML codec round-trips JSON values")
     others = [f for f in ctx.findings if "'reserved'" not in f.construct]
     if not others:
-        ctx.expect_instances("R50.1", 6)
+        ctx.expect_instances("R50.1", 4)
         ctx.expect_instances("R50.2", 12 + 3 + 5 + 1)
 
 
@@ -488,6 +789,8 @@ MUTANTS = [
     Mutant("escape-dropped", CV, "    ret.text = strutils.escape_control_characters(ret.text)\n", "", "R50.1"),
     Mutant("error-path-returns-unescaped", CV, "                description=enc,\n            )\n\n    ret.text", "                description=enc,\n            )\n            return ret\n\n    ret.text", "R50.1"),
     Mutant("text-extended-after-escape", CV, "    ret.text = strutils.escape_control_characters(ret.text)\n    return ret", "    ret.text = strutils.escape_control_characters(ret.text)\n    ret.text = ret.text + enc\n    return ret", "R50.1"),
+    Mutant("escape-skipped-for-error-display", CV, "    ret.text = strutils.escape_control_characters(ret.text)\n    return ret",
+           "    if ret.syntax_highlight != \"error\":\n        ret.text = strutils.escape_control_characters(ret.text)\n    return ret", "R50.1"),
     Mutant("view-errors-only-valueerror", CV, "    except Exception as e:\n        logger.debug(f\"Contentview", "    except ValueError as e:\n        logger.debug(f\"Contentview", "R50.1"),
     Mutant("raw-view-strict-decode", RAW, "return data.decode(\"utf-8\", \"backslashreplace\")", "return data.decode(\"utf-8\")", "R50.1"),
     Mutant("render-priority-unguarded", REGF, "            except Exception:\n                logger.exception(f\"Error in {view.name}.render_priority\")", "            except AssertionError:\n                logger.exception(f\"Error in {view.name}.render_priority\")", "R50.1"),
@@ -503,7 +806,9 @@ MUTANTS = [
     Mutant("op-code-decoded-with-wrong-table", DNS, "op_code=op_codes.from_str(data[\"op_code\"]),", "op_code=response_codes.from_str(data[\"op_code\"]),", "R50.2"),
     Mutant("authorities-read-from-answers", DNS, "ResourceRecord.from_json(x) for x in data[\"authorities\"]", "ResourceRecord.from_json(x) for x in data[\"answers\"]", "R50.2"),
     Mutant("rr-ttl-dropped", DNS, "            ttl=data[\"ttl\"],", "            ttl=cls.DEFAULT_TTL,", "R50.2"),
+    Mutant("rr-ttl-zero-replaced", DNS, "            ttl=data[\"ttl\"],", "            ttl=data.get(\"ttl\") or cls.DEFAULT_TTL,", "R50.2"),
     Mutant("question-class-not-written", DNS, "            \"type\": types.to_str(self.type),\n            \"class\": classes.to_str(self.class_),\n        }\n\n    @classmethod\n    def from_json(cls, data: dict[str, str]) -> Self:",
            "            \"type\": types.to_str(self.type),\n        }\n\n    @classmethod\n    def from_json(cls, data: dict[str, str]) -> Self:", "R50.2"),
     Mutant("dns-view-hides-id", DNSV, "        message.pop(\"timestamp\", None)", "        message.pop(\"timestamp\", None)\n        message.pop(\"id\", None)", "R50.2"),
+    Mutant("dns-view-truncates-answers", DNSV, "        message.pop(\"timestamp\", None)", "        message.pop(\"timestamp\", None)\n        message[\"answers\"] = message[\"answers\"][:1]", "R50.2"),
 ]
